@@ -652,7 +652,28 @@ func ruleR1_11(w *World, r *Report) {
 // (or recycled) while the binding stands is later read by conflict analysis.
 func ruleR1_12(w *World, r *Report) {
 	r.Rule("R1.12", "every store of a clause into Solver.reason is accompanied, in the same block, by a call locking that clause - except for clauses taken from the two-literal watch lists, which are never candidates for deletion", 2)
+	// the locking method: the method of *Clause without parameters or results that sets bits (x = x | mask) in a field
+	// of the clause; the name is only the fallback
 	lock := w.Func("solver", "Clause.lock")
+	for _, f := range w.Fns {
+		if w.PkgName(f) != "solver" || f.Signature.Recv() == nil || typeShort(f.Signature.Recv().Type()) != "*solver.Clause" ||
+			f.Signature.Params().Len() != 0 || f.Signature.Results().Len() != 0 || len(f.Blocks) != 1 {
+			continue
+		}
+		ors, others := 0, 0
+		allInstrs(f, func(ins ssa.Instruction) {
+			if st, ok := ins.(*ssa.Store); ok {
+				if bo, isB := st.Val.(*ssa.BinOp); isB && bo.Op == token.OR {
+					ors++
+				} else {
+					others++
+				}
+			}
+		})
+		if ors == 1 && others == 0 {
+			lock = f
+		}
+	}
 	if lock == nil {
 		r.Unk("R1.12", "(*solver.Clause).lock", "-", "method not found")
 		return
